@@ -122,6 +122,18 @@ def op_fns(F):
     return out
 
 
+def op_tbl(fn):
+    """decision table of an operator impl with the operands named by position (`self`, `rhs`),
+    whatever the impl calls them"""
+    env = {}
+    i = 0
+    for p_ in fn.params:
+        for b in _pat_binds(p_):
+            env[b['local']] = 'self' if i == 0 else 'rhs' if i == 1 else 'p%d' % i
+            i += 1
+    return dtree.table(fn.hir, env)
+
+
 def is_nat_leaf(leaf):
     return leaf.endswith('nat()') or leaf == 'self' or leaf == 'NULL' or leaf == 'PANIC'
 
@@ -139,7 +151,7 @@ def check_ops(run, F):
             run.ob('NAT.guard', 'tea_time::impl_ops', key, False, '', 'operator impl not found')
             continue
         n += 1
-        t = N.tbl(fn)
+        t = op_tbl(fn)
         bad = []
         for cs, leaf, ef in t:
             if is_nat_leaf(leaf) and not leaf.startswith('Time('):
@@ -333,7 +345,7 @@ def check_mirrors(run, F):
         # x - d  ==  x + (-d): substitute -rhs.months / -rhs.inner into the addition's decision
         # table and compare it, row by row, with the subtraction's (values as polynomials)
         from algebra import parse_poly
-        ta, tb = N.tbl(fa), N.tbl(fb)
+        ta, tb = op_tbl(fa), op_tbl(fb)
 
         def neg_rhs(x):
             x = x.replace('rhs.inner.num_nanoseconds()', 'NEGN').replace('rhs.inner', 'NEGI')
@@ -407,7 +419,7 @@ def check_months(run, F):
         if fn is None:
             run.ob('TIME.months', 'tea_time::impl_ops', str(k), False, '', 'impl missing')
             continue
-        t = N.tbl(fn)
+        t = op_tbl(fn)
         vals = [l for cs, l, ef in t if not is_nat_leaf(l)]
         norm_ = [re.sub(r'^[\w:?]*\{', 'timedelta::TimeDelta{', v) for v in vals]
         run.ob('TIME.months', fn, 'TimeDelta %s acts on both components' % k[1],
@@ -418,7 +430,7 @@ def check_months(run, F):
         fn = fns.get(k)
         if fn is None:
             continue
-        t = N.tbl(fn)
+        t = op_tbl(fn)
         bad = []
         uses = 0
         for cs, leaf, ef in t:
